@@ -34,16 +34,41 @@ def r07_1(chk, P):
             x = sk.canon(F, F.ex[e]['c'][1])
             xid = F.strip_casts(F.ex[e]['c'][1])
 
-            def is_adv(nn):
+            def scaled(r_):
+                """(X, shift expression) when r_ is X<<h, X*(1<<h) or (1<<h)*X"""
+                r = F.ex[F.strip_casts(r_)]
+                if r['k'] == 'bin' and r['op'] == '<<':
+                    return r['c'][0], r['c'][1]
+                if r['k'] == 'bin' and r['op'] == '*':
+                    for a_, b_ in ((r['c'][0], r['c'][1]), (r['c'][1], r['c'][0])):
+                        bn = F.ex[F.strip_casts(b_)]
+                        if bn['k'] == 'bin' and bn['op'] == '<<' and common.const_val(F, bn['c'][0]) == 1:
+                            return a_, bn['c'][1]
+                return None
+
+            def adv_shift(nn):
+                """the shift expression of `pcm_offset += X<<h` / `pcm_offset = pcm_offset + X*(1<<h)` with this read's X"""
                 nd = F.ex[nn]
-                if nd['k'] == 'assign' and nd['op'] == '+=':
-                    l = F.ex[F.strip_casts(nd['c'][0])]
-                    if l['k'] == 'member' and l['field'] == 'pcm_offset':
-                        r = F.ex[F.strip_casts(nd['c'][1])]
-                        if r['k'] == 'bin' and r['op'] == '<<' and sk.canon(F, r['c'][0]) == x \
-                                and F.s(r['c'][0]) == F.s(F.ex[e]['c'][1]):
-                            return True
-                return False
+                if nd['k'] != 'assign' or nd['op'] not in ('+=', '='):
+                    return None
+                l = F.ex[F.strip_casts(nd['c'][0])]
+                if not (l['k'] == 'member' and l['field'] == 'pcm_offset'):
+                    return None
+                cands = [nd['c'][1]]
+                if nd['op'] == '=':
+                    r = F.ex[F.strip_casts(nd['c'][1])]
+                    if not (r['k'] == 'bin' and r['op'] == '+'):
+                        return None
+                    cands = [y for x_, y in ((r['c'][0], r['c'][1]), (r['c'][1], r['c'][0]))
+                             if F.s(F.strip_casts(x_)) == F.s(F.strip_casts(nd['c'][0]))]
+                for cnd in cands:
+                    sc = scaled(cnd)
+                    if sc and sk.canon(F, sc[0]) == x and F.s(F.strip_casts(sc[0])) == F.s(F.strip_casts(F.ex[e]['c'][1])):
+                        return sc[1]
+                return None
+
+            def is_adv(nn):
+                return adv_shift(nn) is not None
 
             def stop(nn):
                 nd = F.ex[nn]
@@ -58,7 +83,7 @@ def r07_1(chk, P):
             # the shift amount is the half-rate flag
             for nn in F.pos:
                 if is_adv(nn):
-                    sh = F.ex[F.strip_casts(F.ex[nn]['c'][1])]['c'][1]
+                    sh = adv_shift(nn)
                     d = common.single_defs(F)
                     shn = F.ex[F.strip_casts(sh)]
                     src = F.s(F.strip_casts(sh))         # the flag may be fetched in place: x<<vorbis_synthesis_halfrate_p(vi)
